@@ -33,9 +33,25 @@ def main(argv=None):
             print(f"ANALYSIS-ERROR property={prop} no checker implemented")
             return 2
         seed = int(os.environ.get("VERIF_SEED", "0") or 0)
+        # watchdog: an analysis that does not finish is an analysis error (exit 2), never a hang
+        import signal
+        limit = int(os.environ.get("PDXSA_TIMEOUT", "1500" if args.tier == "quick" else "7200"))
+
+        def _late(signum, frame):
+            print(f"ANALYSIS-ERROR property={prop} the analysis did not finish within {limit} s", flush=True)
+            os._exit(2)
+        try:
+            signal.signal(signal.SIGALRM, _late)
+            signal.alarm(limit)
+        except (ValueError, AttributeError):
+            pass
         rc = report.run_check(prop, mod.run, args.tier, args.repo, seed=seed, replay=args.replay,
                               level=_level(prop, mod),
                               checker_cmd=f"python3-vt -m pdxsa check {prop} --tier {args.tier}")
+        try:
+            signal.alarm(0)
+        except Exception:
+            pass
         if args.tier == "thorough" and not args.replay and os.path.abspath(args.repo) == "/repo" and not os.environ.get("PDXSA_NO_SELFTEST"):
             # machinery self-test for this property (mutants must be reported, benign refactors must stay silent);
             # informational: it never changes the verdict about /repo
